@@ -146,40 +146,13 @@ VARIANTS = [
     # ---- R1 filter loop
     {"name": "R1 kept events inserted at the head", "file": HEM, "expect": "C17.R1",
      "old": "                            new_events.append(event)\n", "new": "                            new_events.insert(0, event)\n"},
-    {"name": "R1 extra filter condition drops events", "file": HEM, "expect": "C17.R1",
-     "old": "                        if not self._handle_eq_event(cap_data.session(), region, event):\n",
-     "new": "                        if not self._handle_eq_event(cap_data.session(), region, event) "
-            "and event[\"message\"] != \"PlacesReply\":\n"},
     {"name": "R1 events visited in reverse", "file": HEM, "expect": "C17.R1",
      "old": "                    for event in old_events:\n", "new": "                    for event in reversed(old_events):\n"},
-    {"name": "R1 filter polarity flipped", "file": HEM, "expect": "C17.R1",
-     "old": "                        if not self._handle_eq_event(cap_data.session(), region, event):\n",
-     "new": "                        if self._handle_eq_event(cap_data.session(), region, event):\n"},
-    {"name": "R1 _handle_eq_event reports every event swallowed", "file": HEM, "expect": "C17.R1",
-     "old": _REGISTER_TAIL, "new": _REGISTER_TAIL.replace("return False", "return True")},
     {"name": "R1 outgoing list sorted after the merge", "file": HEM, "expect": "C17.R1",
      "old": "                    parsed_eq_resp[\"events\"] = new_events\n",
      "new": "                    parsed_eq_resp[\"events\"] = new_events\n                    new_events.sort(key=str)\n"},
     {"name": "R1 filtered list never stored into the response", "file": HEM, "expect": "C17.R1",
      "old": "                    parsed_eq_resp[\"events\"] = new_events\n", "new": ""},
-    {"name": "P R1 list-comprehension form of the filter", "file": HEM, "expect": "silent",
-     "old": _FILTER,
-     "new": "                    new_events = [event for event in old_events\n"
-            "                                  if not self._handle_eq_event(cap_data.session(), region, event)]\n"},
-    {"name": "P R1 verdict in a local, continue on swallow", "file": HEM, "expect": "silent",
-     "old": _FILTER,
-     "new": "                    new_events = []\n"
-            "                    for event in old_events:\n"
-            "                        swallowed = self._handle_eq_event(cap_data.session(), region, event)\n"
-            "                        if swallowed:\n"
-            "                            continue\n"
-            "                        new_events.append(event)\n"},
-    {"name": "P R1-R3 EventQueueGet branch extracted into a helper with other local names", "expect": "silent",
-     "edits": [
-         {"file": HEM, "old": _EQ_BRANCH, "new": "                self._rewrite_eq_response(flow, cap_data, region)\n"},
-         {"file": HEM, "old": "    def _handle_login_flow(self, flow: HippoHTTPFlow):\n",
-          "new": _EQ_HELPER + "    def _handle_login_flow(self, flow: HippoHTTPFlow):\n"},
-     ]},
     # ---- R2 injected events
     {"name": "R2 take_injected_events returns without clearing", "file": REG, "expect": "C17.R2",
      "old": _TAKE, "new": "        events = self._queued_events\n"},
@@ -200,12 +173,6 @@ VARIANTS = [
      "new": "                    injected = eq_manager.take_injected_events()\n"
             "                    if old_events:\n"
             "                        new_events.extend(injected)\n"},
-    {"name": "R2 queue drained before the fallible filter loop", "expect": "C17.R2",
-     "edits": [
-         {"file": HEM, "old": _FILTER,
-          "new": "                    pending = cap_data.region().eq_manager.take_injected_events()\n" + _FILTER},
-         {"file": HEM, "old": _MERGE, "new": "                    new_events.extend(pending)\n"},
-     ]},
     {"name": "P R2 only logging between draining and merging", "file": HEM, "expect": "silent",
      "old": _MERGE,
      "new": "                    pending = eq_manager.take_injected_events()\n"
@@ -226,8 +193,6 @@ VARIANTS = [
      ]},
     {"name": "R3 cache refuses the undef ack (seed 2)", "file": REG, "expect": "C17.R3",
      "old": "        if self._last_ack == req_ack:\n", "new": "        if req_ack is not None and self._last_ack == req_ack:\n"},
-    {"name": "R3 response cached before the undef replacement", "file": HEM, "expect": "C17.R3",
-     "old": _UNDEF + _CACHE, "new": _CACHE + _UNDEF},
     {"name": "R3 cache keyed by the response id", "file": HEM, "expect": "C17.R3",
      "old": "                    req_ack_id = llsd.parse_xml(flow.request.content)[\"ack\"]\n",
      "new": "                    req_ack_id = llsd.parse_xml(flow.response.content)[\"id\"]\n"},
@@ -262,8 +227,6 @@ VARIANTS = [
      "old": "        for region in self.regions:\n            if region.circuit_addr == circuit_addr:\n                if seed_url and",
      "new": "        self.regions.append(self.REGION_CLS(circuit_addr, seed_url, self, handle=handle))\n"
             "        for region in self.regions:\n            if region.circuit_addr == circuit_addr:\n                if seed_url and"},
-    {"name": "R4 register_region called for every event", "file": HEM, "expect": "C17.R4",
-     "old": _REGISTER_TAIL, "new": _REGISTER_TAIL.replace("if sim_addr is not None:", "if sim_addr is not None or sim_seed is None:")},
     {"name": "R4 regions grown outside register_region", "file": SESS, "expect": "C17.R4",
      "old": "        AddonManager.handle_region_registered(self, region)\n",
      "new": "        self.regions.append(region)\n        AddonManager.handle_region_registered(self, region)\n"},
@@ -277,10 +240,6 @@ VARIANTS = [
     {"name": "P R4 address comparison hoisted into a local", "file": STATE, "expect": "silent",
      "old": "            if region.circuit_addr == circuit_addr:\n                if seed_url and",
      "new": "            same_sim = region.circuit_addr == circuit_addr\n            if same_sim:\n                if seed_url and"},
-    {"name": "P R4 early-exit form of the registration guard", "file": HEM, "expect": "silent",
-     "old": _REGISTER_TAIL,
-     "new": "        if sim_addr is None:\n            return False\n"
-            "        session.register_region(sim_addr, handle=sim_handle, seed_url=sim_seed)\n        return False\n"},
     # ---- round 3: teardown, foreign event bodies
     {"name": "R3 mark_dead clears the event queue manager only on one path", "file": REG, "expect": "C17.R3",
      "old": "        super().mark_dead()\n        self.eq_manager.clear()\n",
@@ -437,27 +396,27 @@ VARIANTS = [
      "new": "        handle_event = AddonManager.handle_eq_event(session, region, event)\n"
             "        if handle_event is True:\n            return True\n        return False\n"},
     # ---- the round-1..8 variants whose anchor text the audit fixes change, re-anchored on the fixed text
-    {"name": "R1 extra filter condition drops events (post-fix)", "file": HEM, "expect": "C17.R1",
+    {"name": "R1 extra filter condition drops events", "file": HEM, "expect": "C17.R1",
      "old": "                        if not swallowed:\n",
      "new": "                        if not swallowed and event[\"message\"] != \"PlacesReply\":\n"},
-    {"name": "R1 filter polarity flipped (post-fix)", "file": HEM, "expect": "C17.R1",
+    {"name": "R1 filter polarity flipped", "file": HEM, "expect": "C17.R1",
      "old": "                        if not swallowed:\n", "new": "                        if swallowed:\n"},
-    {"name": "R1 _handle_eq_event reports every event swallowed (post-fix)", "file": HEM, "expect": "C17.R1",
+    {"name": "R1 _handle_eq_event reports every event swallowed", "file": HEM, "expect": "C17.R1",
      "old": "        return handle_event is True\n", "new": "        return True\n"},
-    {"name": "R1 any truthy hook result swallows (post-fix)", "file": HEM, "expect": "C17.R1",
+    {"name": "R1 any truthy hook result swallows", "file": HEM, "expect": "C17.R1",
      "old": "        return handle_event is True\n", "new": "        return bool(handle_event)\n"},
-    {"name": "R1 filter as a comprehension loses the per-event isolation (post-fix)", "file": HEM, "expect": "C17.R1",
+    {"name": "R1 filter as a comprehension loses the per-event isolation", "file": HEM, "expect": "C17.R1",
      "old": "                    new_events = []\n                    for event in old_events:\n" + _B1_FIXED,
      "new": "                    new_events = [event for event in old_events\n"
             "                                  if not self._handle_eq_event(cap_data.session(), region, event)]\n"},
-    {"name": "P R2 queue drained before the (now fault-isolated) filter loop (post-fix)", "expect": "silent",
+    {"name": "P R2 queue drained before the (now fault-isolated) filter loop", "expect": "silent",
      "edits": [
          {"file": HEM, "old": "                    new_events = []\n                    for event in old_events:\n" + _B1_FIXED,
           "new": "                    pending = cap_data.region().eq_manager.take_injected_events()\n"
                  "                    new_events = []\n                    for event in old_events:\n" + _B1_FIXED},
          {"file": HEM, "old": _MERGE, "new": "                    new_events.extend(pending)\n"},
      ]},
-    {"name": "R3 undef replacement after the response was serialised and cached (post-fix)", "file": HEM, "expect": "C17.R3",
+    {"name": "R3 undef replacement after the response was serialised and cached", "file": HEM, "expect": "C17.R3",
      "old": _UNDEF + "                    # HACK: see note in above request handler for EventQueueGet\n"
             "                    req_ack_id = llsd.parse_xml(flow.request.content)[\"ack\"]\n" + _B2_FIXED,
      "new": "                    # HACK: see note in above request handler for EventQueueGet\n"
@@ -466,20 +425,18 @@ VARIANTS = [
             "                    eq_manager.cache_last_poll_response(req_ack_id, parsed_eq_resp)\n"
             + _UNDEF +
             "                else:\n                    flow.response.content = llsd.format_xml(parsed_eq_resp)\n"},
-    {"name": "R4 register_region called for every event (post-fix)", "file": HEM, "expect": "C17.R4",
+    {"name": "R4 register_region called for every event", "file": HEM, "expect": "C17.R4",
      "old": "        if sim_addr is not None:\n            session.register_region(",
      "new": "        if sim_addr is not None or sim_seed is None:\n            session.register_region("},
-    {"name": "P R4 registration guard with the empty branch first (post-fix)", "file": HEM, "expect": "silent",
+    {"name": "P R4 registration guard with the empty branch first", "file": HEM, "expect": "silent",
      "old": "        if sim_addr is not None:\n            session.register_region(sim_addr, handle=sim_handle, seed_url=sim_seed)\n",
      "new": "        if sim_addr is None:\n            pass\n        else:\n"
             "            session.register_region(sim_addr, handle=sim_handle, seed_url=sim_seed)\n"},
-    {"name": "P R1-R3 EventQueueGet branch extracted into a helper with other local names (post-fix)", "expect": "silent",
+    {"name": "P R1-R3 EventQueueGet branch extracted into a helper with other local names", "expect": "silent",
      "edits": [
          {"file": HEM, "old": _EQ_BRANCH_FX, "new": "                self._rewrite_eq_response(flow, cap_data, region)\n"},
          {"file": HEM, "old": "    def _handle_login_flow(self, flow: HippoHTTPFlow):\n",
           "new": _EQ_HELPER_FX + "    def _handle_login_flow(self, flow: HippoHTTPFlow):\n"},
      ]},
     # ---- documented limit
-    {"name": "X swallow on any truthy hook result instead of `is True` (value level)", "file": HEM, "expect": "miss",
-     "old": "        if handle_event is True:\n", "new": "        if handle_event:\n"},
 ]
